@@ -127,6 +127,46 @@ def verify(ck, mx, p, run, tag, stats, periodic_bcs=()):
                                          dict(files=run.files(), model=verts[:3], mesh=v2[:3]))
                     continue
             return ("arc", "drawn arc %d (%g degrees, max %g degrees per chord -> %d chords): %s" % (k, a_["angle"], a_["maxseg"], kk, msg))
+    # ---- the border of the triangulation is made of drawn entities: every mesh edge that belongs to ONE triangle lies on a drawn line,
+    # or is a chord between two NEIGHBOURING mesh nodes on the circle of a drawn arc (a chord skipping nodes of the circle, or an edge
+    # through a vertex that lies on nothing drawn, means the triangles cover another domain than the drawn one)
+    P = [(nd["x"], nd["y"]) for nd in p.nodes]
+    circles = []
+    for a_ in p.arcs:
+        n0, n1 = P[a_["n0"]], P[a_["n1"]]
+        (cx, cy), R = meshgeom.arc_circle(n0, n1, a_["angle"])
+        a0 = math.atan2(n0[1] - cy, n0[0] - cx)
+        th = math.radians(a_["angle"])
+        on = sorted(d for d in (((math.atan2(q[1] - cy, q[0] - cx) - a0) % (2 * math.pi)) if abs(math.hypot(q[0] - cx, q[1] - cy) - R) <= 1e-9 * max(R, 1.0) else None
+                                for q in m.xy) if d is not None and (d <= th + 1e-7 or d > 2 * math.pi - 1e-7))
+        on = sorted({0.0 if d > 2 * math.pi - 1e-7 else d for d in on})
+        circles.append((cx, cy, R, a0, th, on))
+
+    def on_seg(q, a, b):
+        L = math.hypot(b[0] - a[0], b[1] - a[1])
+        cr = (b[0] - a[0]) * (q[1] - a[1]) - (b[1] - a[1]) * (q[0] - a[0])
+        t = ((q[0] - a[0]) * (b[0] - a[0]) + (q[1] - a[1]) * (b[1] - a[1])) / (L * L)
+        return abs(cr) <= 1e-9 * L * max(L, 1.0) and -1e-9 <= t <= 1 + 1e-9
+    for (i, j), cnt in m.edge_use.items():
+        if len(cnt) != 1:
+            continue
+        stats["border_edges"] = stats.get("border_edges", 0) + 1
+        qa, qb = m.xy[i], m.xy[j]
+        ok = any(on_seg(qa, P[s["n0"]], P[s["n1"]]) and on_seg(qb, P[s["n0"]], P[s["n1"]]) for s in p.segs)
+        if not ok:
+            # a chord between neighbouring mesh nodes on the circle of an arc, or a piece of it (refinement subdivides chords)
+            for (cx, cy, R, a0, th, on) in circles:
+                for k_ in range(len(on) - 1):
+                    c0 = (cx + R * math.cos(a0 + on[k_]), cy + R * math.sin(a0 + on[k_]))
+                    c1 = (cx + R * math.cos(a0 + on[k_ + 1]), cy + R * math.sin(a0 + on[k_ + 1]))
+                    if on_seg(qa, c0, c1) and on_seg(qb, c0, c1):
+                        ok = True
+                        break
+                if ok:
+                    break
+        if not ok:
+            return ("border", "the mesh edge between nodes %d (%.12g, %.12g) and %d (%.12g, %.12g) belongs to one triangle only but lies on no drawn line and on no "
+                    "chord between neighbouring nodes of a drawn arc: the triangles do not cover the drawn domain" % (i, qa[0], qa[1], j, qb[0], qb[1]))
     return None
 
 
@@ -170,6 +210,10 @@ def main(argv):
                 elif fam == "sector-hole":
                     p, _, _ = per.gen_sector(kind, rng, anti, True)
                 else:
+                    if fam == "arcsides":
+                        # both listing orders of the two partner arcs, alternately (the generator decides by its call count)
+                        stats["arcsides_orders"] = stats.get("arcsides_orders", 0) + 1
+                        per.gen_arcsides.calls = 1 if stats["arcsides_orders"] % 2 else 3
                     p, _, _ = per.gen_arcsides(kind, rng, anti)
                     if fam == "arcsides-k1":
                         for a in p.arcs:
